@@ -217,6 +217,9 @@ fn handle(
                     if facts.max_lead == sc.queue {
                         rep.count("runs_where_lead_reached_queue_length");
                     }
+                    if facts.err_with_sets_in_flight {
+                        rep.count("runs_where_reader_failed_with_sets_in_flight");
+                    }
                     if facts.err_overtook_results {
                         rep.count("runs_where_error_overtook_results");
                     }
